@@ -42,6 +42,7 @@ class Interp:
     def __init__(self, repo=None, registry=None, opts=None):
         from . import lib as _lib
         from . import models_time  # noqa: registers the datetime models
+        from . import models_sci  # noqa: scipy / numpy.ma models
         self.repo = repo or Repo()
         self.registry = registry       # contracts by qualified name
         self.opts = opts or {}
@@ -53,6 +54,7 @@ class Interp:
         self.used_contracts = set()
         self.used_models = set()
         self.used_lemmas = set()
+        self.used_axioms = set()
         self.dropped = []
         self.call_hook = None
 
